@@ -135,6 +135,7 @@ package ledger
 //@ func Ledger.ConfirmBlock
 //@   property C06
 //@   requires two_caches: l.blockCache != l.blkHeaderCache
+//@   requires transactions_are_allocated_objects: block != nil && (forall k int :: 0 <= k && k < len(block.Transactions) ==> block.Transactions[k] <= allocTop())
 //@   local kvErr error
 //@   local newMeta *xldgpb.LedgerMeta
 //@   local batchWrite kvdb.Batch
@@ -154,6 +155,11 @@ package ledger
 // The block is stored with the trunk flag the LEDGER decided: flagged only if it became the
 // tip (whatever flag the submitted copy carried - neither id nor signature cover it).
 //@   at Ledger.saveBlock#2 assert [C04] stored_flag_is_the_ledgers_decision: $0 == block && $1 == batchWrite && (block.InTrunk ==> newMeta.TipBlockid == block.Blockid)
+// Every transaction of a block that joins the trunk is mapped to THAT block by this
+// confirmation: its record is (re)written in the batch, whichever block held it before.
+//@   loop 1 invariant [C04] transactions_are_the_callers_objects: (forall k int :: 0 <= k && k < len($range) ==> $range[k] <= old(allocTop()))
+//@   loop 1 invariant [C04] trunk_block_takes_over_its_transactions: 0 <= $i && $i <= len($range) && (block.InTrunk ==> (forall k int :: 0 <= k && k < $i ==> sel(sel(batchOp, ifacePtr(batchWrite)), xldgpb.ConfirmedTablePrefix + str($range[k].Txid)) == 1))
+//@   loop 1 invariant [C18] a_writers_block_is_the_trunk_block_that_holds_it: 0 <= $i && $i <= len($range) && (block.InTrunk ==> (forall k int :: 0 <= k && k < $i ==> sel(sel(batchOp, ifacePtr(batchWrite)), xldgpb.ConfirmedTablePrefix + str($range[k].Txid)) == 1))
 //@   loop 1 invariant [C04] tip_rule_prepared: newMeta != nil && l.meta == old(l.meta) && (!isRoot ==> (newMeta.TipBlockid == block.Blockid || newMeta.TipBlockid == l.meta.TipBlockid) && newMeta.TrunkHeight >= l.meta.TrunkHeight && (newMeta.TipBlockid != l.meta.TipBlockid ==> newMeta.TrunkHeight > l.meta.TrunkHeight))
 
 // Removing the blocks of a branch only prepares deletes in the caller's batch:
